@@ -32,7 +32,7 @@ def gen_teardown(rng, n):
     for _ in range(n):
         kind = rng.choice(["in", "in", "out"])
         cfg = vsockgen.gen_config(rng, kind)
-        cfg[2] = rng.choice([576, 576, 1500])            # 576: no MTU probes (keeps D10 out of most cases)
+        cfg[2] = rng.choice([576, 576, 1500])            # 576: no MTU probes
         isn, rseq = cfg[11], cfg[12]
         ops, now = [], (cfg[16] if kind == "out" else 0)
         ts = [1]
@@ -151,75 +151,8 @@ COMPONENTS = [{"name": "vsock", "keep": vsock_common.KEEP, "gen": gen, "nontrivi
                "classify": classify, "pred": _combined_pred}]
 
 
-# ---------------------------------------------------------------- known findings
-def _ops(case):
-    return case.split()[1 + vsock_common.KEEP:]
-
-
-def is_d10_class(case, result):
-    """D10: data written while an MTU probe was outstanding, and the close requested (both halves dropped or
-    shutdown) before the probe was acknowledged.  Decidable rule on the case: the failing predicate is
-    c17_fin_after_data_ok, the link admits probes (link_mtu above the family minimum), and some write op follows a
-    poll and precedes a DR/DW/H op."""
-    if "c17_fin_after_data_ok" not in result:
-        return False
-    t = case.split()
-    if int(t[3]) <= 576:
-        return False
-    ops = _ops(case)
-    seen_poll = False
-    wrote_after_poll = False
-    for o in ops:
-        if o.startswith("P"):
-            seen_poll = True
-        elif o.startswith("W") and seen_poll:
-            wrote_after_poll = True
-        elif (o in ("DR", "DW", "H")) and wrote_after_poll:
-            return True
-    return False
-
-
-def is_d13_class(case, result):
-    """D13: the FIN was numbered after a retransmission timeout had rewound last_sent_seq_nr (seq_nr lowered by a
-    retransmission).  Rule: the failing predicate is c17_fin_seq_ok and the case advances the clock by at least the
-    minimum RTO (200 ms) between two polls while data is outstanding (a T op followed by a poll)."""
-    if "c17_fin_seq_ok" not in result:
-        return False
-    ops = _ops(case)
-    last_t = None
-    now = 0
-    for o in ops:
-        if o.startswith("T"):
-            v = int(o[1:])
-            if v - now >= 200_000_000:
-                return True
-            now = v
-    return False
-
-
-def classify_known(kind, payload, kf):
-    if kind != "predicate":
-        return None
-    ids = {e.get("id") for e in kf.get("open", [])}
-    case, res = payload.get("case", ""), payload.get("predicate_result", "")
-    if "D10" in ids and is_d10_class(case, res):
-        return ("id=D10 FIN sent while written data is still unsegmented (split_tx_queue_into_segments returned early "
-                "on an unexpired MTU probe and left this_poll.unsegmented_data stale); case: " + case)
-    if "D13" in ids and is_d13_class(case, res):
-        return ("id=D13 own FIN numbered with the sequence number of an outstanding data segment (send_data! lowered "
-                "seq_nr after an RTO rewound last_sent_seq_nr); case: " + case)
-    return None
-
-
-def replay_known(kf):
-    """Each open finding of this property is replayed on the real code on every run."""
-    out = []
-    ids = {e.get("id") for e in kf.get("open", [])}
-    for fid, case, pred in (("D10", D10_CASE, "c17_fin_after_data_ok"), ("D13", D13_CASE, "c17_fin_seq_ok")):
-        if fid not in ids:
-            continue
-        o = L.run_lines(L.HARNESS, [case])[0]
-        r = L.run_lines(L.MODEL, ["vsock_pred %s %s | %s" % (pred, " ".join(case.split()[1:]), o)])[0]
-        if r != "OK":
-            out.append("KNOWN-FINDING: property=C17 id=%s still reproduces on the real code (%s): %s" % (fid, r, case))
-    return out
+# ---------------------------------------------------------------- former findings
+# D10 (FIN sent while written data was still unsegmented) and D13 (own FIN numbered with the sequence number of an
+# outstanding data segment) are repaired (known_findings.json `fixed`): c17_fin_after_data_ok and c17_fin_seq_ok must
+# simply hold, no class explains a failure of theirs any more.  The two former witnesses (D10_CASE, D13_CASE) are in
+# corpus/vsock.txt: they go through the correspondence and through every predicate on every run.
